@@ -29,7 +29,7 @@ RULE = ("seeded fits: mask (holes / components / touching nothing required), sig
         "signed model image, background sky 0 or non-zero, slim and garbage-carrying native mode; with and without an inversion "
         "(fully / partially / not regularised object lists from the C04 generator). A case = one fit input; distinct by hash of "
         "(mask, data, noise, model, sky); non-trivial = at least one masked and two unmasked pixels and model != data")
-BOUNDS = {"quick": "200 plain fits x 2 modes x 2 garbage variants + 48 fits with an inversion", "thorough": "60000 plain fits + 12000 fits with an inversion"}
+BOUNDS = {"quick": "1000 plain fits x 2 modes x 2 garbage variants + 240 fits with an inversion", "thorough": "60000 plain fits + 12000 fits with an inversion"}
 EXHAUSTIVE = {"quick": False, "thorough": False}
 ASSUMPTIONS = ["scalar statistics compared to 1e-10 relative (same operands, different summation order)",
                "log-determinant terms compared with tolerance 1e-9*|value| + 1e-14*n*cond (backward-stable factorisations differ by "
@@ -42,10 +42,10 @@ MIN_MONITORS = {"*": {"stat.chi_squared": 20, "stat.noise_normalization": 20, "s
 
 
 def plan(tier, seed):
-    n = 200 if tier == "quick" else 60000
-    ni = 48 if tier == "quick" else 12000
-    step = 10 if tier == "quick" else 50
-    s2 = 3 if tier == "quick" else 15
+    n = 1000 if tier == "quick" else 60000
+    ni = 240 if tier == "quick" else 12000
+    step = 25 if tier == "quick" else 50
+    s2 = 6 if tier == "quick" else 15
     return ([{"kind": "plain", "start": s, "stop": min(n, s + step), "w": step * 0.2} for s in range(0, n, step)] +
             [{"kind": "inv", "start": s, "stop": min(ni, s + s2), "w": s2} for s in range(0, ni, s2)])
 
